@@ -72,11 +72,13 @@ Definition slot_idx (s : slot) : nat :=
   end.
 Definition slot_eqb (a b : slot) : bool := Nat.eqb (slot_idx a) (slot_idx b).
 
-(* kind of a slot: the grid itself, frequency dependent, frequency independent *)
-Inductive kind := KOmega | KFD | KFI.
+(* kind of a slot / intermediate: the grid itself, frequency dependent, independent of frequencies and
+   eigenbasis, expressed in the eigenbasis, both (first_order_integral) *)
+Inductive kind := KOmega | KFD | KFI | KE | KFE.
 Definition slot_kind (s : slot) : kind :=
   match s with
   | S_omega => KOmega
+  | S_eigvals | S_eigvecs => KE
   | S_total_phases | S_control_matrix | S_control_matrix_pc | S_filter_function
   | S_filter_function_gen | S_filter_function_pc | S_filter_function_pc_gen
   | S_filter_function_2 => KFD
@@ -199,14 +201,13 @@ Definition derive_eig (g : grid) (cur : tag) (eigs others : list tag) : res tag 
 Inductive how := Served | Derived | Computed.
 
 (* ------------------------------------------------------------------ mechanisms *)
-(* The three repairs of the pinned code and one proposed repair.  The model of the current source is
-   [fixed]; the other settings exist only for the ..._needed / ..._refuted examples of Proofs/Cache.v. *)
+(* The four repairs.  The model of the current source is [fixed]; the other settings exist only for the
+   ..._needed examples of Proofs/Cache.v. *)
 Record mech := mkMech { m_clear_on_cache : bool; m_copy_dict : bool; m_deriv_after_cm : bool;
                         m_cleanup_pops_eig : bool }.
-(* the current source: the three repairs are in, the proposed fourth one (cleanup('conservative') also drops
-   the eigenbasis-dependent intermediates, see finding c07-eig-intermediates) is not *)
-Definition fixed : mech := mkMech true true true false.
-Definition proposed : mech := mkMech true true true true.
+(* the current source: all four repairs are in (the fourth: cleanup('conservative') also drops the
+   eigenbasis-dependent intermediates, commit 7378d31) *)
+Definition fixed : mech := mkMech true true true true.
 
 (* ------------------------------------------------------------------ cleanup *)
 Inductive cleanup_method := Conservative | Greedy | FreqDep | CleanAll.
@@ -241,8 +242,19 @@ Definition pop_key (a : string) : M unit :=
 Fixpoint seq_all {A} (f : A -> M unit) (xs : list A) : M unit :=
   match xs with [] => ret tt | x :: r => f x ;;; seq_all f r end.
 
+(* the keys popped from _intermediates in each branch of cleanup, as extracted from the source *)
+Definition branch_name (m : cleanup_method) : string :=
+  match m with
+  | Conservative => "method == 'conservative'" | Greedy => "method == 'greedy'"
+  | FreqDep => "method == 'frequency dependent'" | CleanAll => "else"
+  end.
+Definition cleanup_pops_of (m : cleanup_method) : list string :=
+  match find (fun p => String.eqb (fst p) (branch_name m)) Src.cleanup_pops_by_branch with
+  | Some p => snd p | None => []
+  end.
+
 Definition cleanup (m : cleanup_method) : M unit :=
-  (match m with FreqDep => seq_all pop_key Src.cleanup_pops | _ => ret tt end) ;;;
+  seq_all pop_key (cleanup_pops_of m) ;;;
   seq_all clear_attr (cleanup_attrs m).
 
 (* ------------------------------------------------------------------ the methods *)
@@ -466,17 +478,13 @@ Definition get_deriv (g : grid) : M (tag * how) :=
   may_raise L_gradff ;;;
   ret (v, Computed).
 
-(* cleanup(method) as called by the user; with the proposed repair the conservative mode also drops the
-   intermediates that are expressed in the eigenbasis being dropped *)
+(* cleanup(method) as called by the user; before commit 7378d31 the conservative mode kept the intermediates
+   that are expressed in the eigenbasis being dropped *)
 Definition cleanup_user (m : cleanup_method) : M unit :=
-  cleanup m ;;;
   match m with
   | Conservative =>
-      if m_cleanup_pops_eig mc
-      then setkey K_n_opers_transformed None ;;; setkey K_basis_transformed None ;;;
-           setkey K_first_order_integral None
-      else ret tt
-  | _ => ret tt
+      if m_cleanup_pops_eig mc then cleanup m else seq_all clear_attr (cleanup_attrs Conservative)
+  | _ => cleanup m
   end.
 
 (* ---- functions of numeric.py / gradient.py as compositions of getters *)
@@ -652,11 +660,8 @@ Inductive gop :=
 | FreshExtended.                               (* a pulse made by extend(...) with cached diagonalization:
                                                   eigvals / eigvecs assembled from those of the inputs *)
 
-(* hypotheses on histories: user data is what the caller says, and no eigen-decomposition other than the one
-   numeric.diagonalize returns is installed (objects made by extend / remap with cached diagonalization are
-   excluded: for them the statement is refuted, see extended_refuted in Proofs/Cache.v) *)
-Definition gop_ok (c : gop) : bool :=
-  match c with Call _ o _ => op_ok o | FreshExtended => false | _ => true end.
+(* the hypothesis on histories: user data is what the caller says *)
+Definition gop_ok (c : gop) : bool := match c with Call _ o _ => op_ok o | _ => true end.
 
 Definition extended_slots : slot -> option tag :=
   fun s => match s with
